@@ -6,6 +6,7 @@ Real `config_parser.parse_section`, `main.invert_flag_name`, `config_parser.pars
 from __future__ import annotations
 
 import configparser
+import contextlib
 import io
 import os
 
@@ -288,7 +289,8 @@ def real_process(ctx: Ctx, ini: list[str], cli: list[str], n: int) -> str:
         f.write("[mypy]\n" + "".join(k.replace("=", " = ", 1).replace("+", ", ") + "\n" for k in ini))
     so, se = io.StringIO(), io.StringIO()
     try:
-        _, o = mm.process_options(["--config-file", cfg] + cli + [src], stdout=so, stderr=se, fscache=FileSystemCache())
+        with contextlib.redirect_stdout(so):
+            _, o = mm.process_options(["--config-file", cfg] + cli + [src], stdout=so, stderr=se, fscache=FileSystemCache())
     except SystemExit:
         return "exit: " + se.getvalue().strip()[:200]
     o.process_error_codes(error_callback=lambda m: None)
